@@ -830,7 +830,7 @@ def c10_k5(ctx):
 
 @rule("C10", "C10-K6", 1, "the sender asks to be woken in every phase in which its timeout handler has something to do", also=("C17",))
 def c10_k6(ctx):
-    from core import dominators
+    from rules_wiring import _NoCallKills
 
     ht = ctx.one("C10-K6", "SendTransaction::handle_timeout")
     ut = ctx.one("C10-K6", "SendTransaction::until_timeout")
@@ -838,38 +838,30 @@ def c10_k6(ctx):
     if not names:
         raise Anchor("C10-K6", "enum SendState")
 
-    def arms(fn):
-        eb = ExprBuilder(ctx.prog, fn)
-        for b in fn.live_blocks():
-            t = fn.blocks[b]["term"]
-            if t["k"] == "switch":
-                e = eb.operand(t["discr"])
-                if e[0] == "discr" and expr_str(e[1]) == "self.send_state":
-                    return b, t
-        return None
+    def track(key):
+        return key[0] == "val" and key[1] == "self.send_state"
 
-    a, u = arms(ht), arms(ut)
-    if not a or not u:
-        raise Anchor("C10-K6", "dispatch on send_state in handle_timeout / until_timeout")
-    # phases in which handle_timeout acts: explicit arms whose region contains a call
-    active = set()
-    for v, tb in a[1]["targets"]:
-        reg = ht.reachable(tb, avoid=[a[1]["otherwise"]])
-        if any(ht.blocks[x]["term"]["k"] == "call" for x in reg):
-            active.add(names.get(v, str(v)))
-    # phases in which until_timeout returns the timer's deadline
-    armed = set()
-    ebu = ExprBuilder(ctx.prog, ut)
-    others_reach = ut.reachable(u[1]["otherwise"])
-    default_timer = any(ut.blocks[x]["term"]["k"] == "call" and (ctx.prog.callee_of(ut.blocks[x]["term"])[1] or "").endswith("Timer::until_timeout") for x in others_reach)
-    for v, tb in u[1]["targets"]:
-        reg = ut.reachable(tb)
-        if any(ut.blocks[x]["term"]["k"] == "call" and (ctx.prog.callee_of(ut.blocks[x]["term"])[1] or ctx.prog.callee_of(ut.blocks[x]["term"])[0] or "").endswith("Timer::until_timeout") for x in reg):
-            armed.add(names.get(v, str(v)))
-    if default_timer:
-        armed |= set(names.values()) - {names.get(v, str(v)) for v, _ in u[1]["targets"]}
-    missing = sorted(active - armed)
+    def reachable_calls(fn, phase, pred):
+        entry = frozenset([frozenset([(("val", "self.send_state"), (True, frozenset([phase])))])])
+        fl = Flow(ctx.prog, _NoCallKills(ctx.mods), fn, track, entry=entry)
+        out = []
+        for b, t in fn.all_calls():
+            cal = ctx.prog.callee_of(t)[1] or ctx.prog.callee_of(t)[0] or ""
+            if pred(cal) and fl.at_term(b):
+                out.append(cal.split("::")[-1])
+        return out
+
+    active, armed = {}, {}
+    for ph in sorted(set(names.values())):
+        acts = reachable_calls(ht, ph, lambda c: c.startswith("cfdp_daemon::"))
+        if acts:
+            active[ph] = sorted(set(acts))
+        if reachable_calls(ut, ph, lambda c: c.endswith("Timer::until_timeout") or c.endswith("Counter::until_timeout")):
+            armed[ph] = True
+    if not active:
+        raise Anchor("C10-K6", "phases in which SendTransaction::handle_timeout acts")
+    missing = sorted(set(active) - set(armed))
     if missing:
         yield bad("C10-K6", "SendTransaction::until_timeout", at(ut), "handle_timeout acts in phase(s) %s but until_timeout does not return the timer deadline there: the transaction is never woken (no retransmission, no limit, never ends)" % missing)
     else:
-        yield ok("C10-K6", "SendTransaction::until_timeout", at(ut), {"active_phases": sorted(active), "armed_phases": sorted(armed)})
+        yield ok("C10-K6", "SendTransaction::until_timeout", at(ut), {"active_phases": active, "armed_phases": sorted(armed)})
